@@ -35,6 +35,9 @@ THEOREMS = [
     "Aio.C13.srv_close_nodrain_skips_drain",
     "Aio.C13.srv_autoclose_uses_nodrain",
     "Aio.C13.peer_close_while_write_paused_is_not_blocked",
+    "Aio.C13.calcWhen_at_or_below_threshold",
+    "Aio.C13.calcWhen_above_threshold",
+    "Aio.C13.flowControl_parks_only_over_limit_and_paused",
 ]
 RULE = ("One scenario = a session configuration (server|client, autoclose, autoping, heartbeat in {none,2,8,11 s}, "
         "receive timeout in {none,0.75,3 s}, close timeout in {0.5,1.5,10 s}, writer limit in {1,20,65536} / client default) "
